@@ -221,6 +221,22 @@ def line_cases(ctx, out, per_scheme):
                 reqs.append(colcases.from_line_req(ann, line, mode, lineno))
                 sreqs.append(sreq)
                 meta.append((ann, line, mode, lineno, names))
+    # MafRecord.from_line given a line that still carries its terminator (LF, CRLF, CR): the terminator is no field text
+    rng2 = ctx.rng("lines-terminated")
+    for ann in impl.builtin_annotations():
+        names = impl.scheme_by_annotation(ann).column_names()
+        for term in ("\n", "\r\n", "\r"):
+            line = "\t".join(colcases.valid_fields(ann, rng2, prefer_nonnull=rng2.choice([0.1, 0.7]))) + term
+            if not is_model_text(line):
+                continue
+            lineno = rng2.randrange(1, 200)
+            sreq = {"op": "spec.line", "scheme": ann, "line": line,
+                    "floats": float_table(line.rstrip("\r\n").split("\t"))}
+            for mode in MODES:
+                reqs.append(colcases.from_line_req(ann, line, mode, lineno))
+                sreqs.append(sreq)
+                meta.append((ann, line, mode, lineno, names))
+            out.distribution["line-terminator:" + repr(term)] += 1
     # spec answers are per line: de-duplicate requests
     uniq = {}
     for sr in sreqs:
@@ -291,14 +307,188 @@ def impl_from_line(r):
     return i
 
 
+# ------------------------------------------------------------------ whole files through every reader entry point
+def file_preamble(ann):
+    """A valid header for the built-in layout `ann` and its column-name line."""
+    sch = impl.scheme_by_annotation(ann)
+    header = ["#version " + sch.version()]
+    if not sch.is_basic():
+        header.append("#annotation.spec " + ann)
+    return header, "\t".join(sch.column_names())
+
+
+def blank_lines(width):
+    """Data lines that are blank to the eye: no field text at all, or only blanks.  Each is still a data line with
+    a field count (1, width, width +- 1) and field texts ('' or blanks) that the property speaks about."""
+    tabs = "\t" * (width - 1)
+    return ["", tabs, " ", "\t" * max(width - 2, 1), "\t" * width, "  ", "\x0b", "\x0c", " " + tabs, tabs + " "]
+
+
+def file_data_lines(rng, ann, n):
+    """Data lines of a file under the layout: valid / perturbed / wrong-count lines (colcases.line_cases) without line
+    breaks, with 0-2 blank-looking lines among them (any position, the last one included)."""
+    width = len(impl.scheme_by_annotation(ann).column_names())
+    lines = [l.rstrip("\r\n") for l in colcases.line_cases(ann, rng, n)]
+    lines = [l for l in lines if "\n" not in l and "\r" not in l and is_model_text(l)]
+    for _ in range(rng.choice([0, 1, 1, 2])):
+        lines.insert(rng.randrange(len(lines) + 1), rng.choice(blank_lines(width)))
+    if rng.random() < 0.3:
+        lines.append(rng.choice(blank_lines(width)[:3]))
+    return lines
+
+
+def read_file(case, tmp):
+    """The file of `case` read to the end through its reader route, on the implementation.
+    -> {"init_exc": ...} or {"items": [per record: {"rec": record_json, "messages": [...]}], "iter_exc": name or None}"""
+    sch = impl.scheme_by_annotation(case["scheme"])
+    header, col = file_preamble(case["scheme"]) if case.get("header") is None else (case["header"], case["columns"])
+    lines = list(header) + [col] + list(case["lines"])
+    try:
+        reader = impl.open_reader(case["route"], lines, impl.MODES[case["mode"]], sch if case.get("given") else None,
+                                  tmp, case.get("final", True))
+    except Exception as e:  # noqa
+        return {"init_exc": common.exc_name(e)}
+    out = {"items": [], "iter_exc": None}
+    try:
+        for rec in reader:
+            out["items"].append({"rec": impl.record_json(rec), "messages": [e.message for e in rec.validation_errors]})
+    except Exception as e:  # noqa
+        out["iter_exc"] = common.exc_name(e)
+    try:
+        reader.close()
+    except Exception:  # noqa
+        pass
+    return out
+
+
+def eval_file(case, specs, tmp, history=None):
+    """One file, one reader route, one mode: every data line of the file is a line the property speaks about.
+    The reader must hand out one record per data line, in order, and each must satisfy the per-line oracle
+    (check_line) with the physical line number; Strict stops with the format exception at the first line that
+    does not conform.  `specs`: {line: answer of spec.line}.  case = {"scheme", "header", "columns", "lines",
+    "route", "mode", "given", "final"}."""
+    ann, mode = case["scheme"], case["mode"]
+    names = impl.scheme_by_annotation(ann).column_names()
+    n_head = len(case["header"]) + 1
+    seen = impl.route_lines(case["route"], list(case["header"]) + [case["columns"]] + list(case["lines"]),
+                            case.get("final", True))[n_head:]
+    res = read_file(case, tmp)
+    e = {"res": res, "failures": [], "outcomes": [], "data_lines": seen}
+
+    def fail(j, **kw):
+        e["failures"].append(dict({"scheme": ann, "mode": mode, "entry": "reader", "file": dict(case), "data_index": j,
+                                   "after_schemes": list(history or [])}, **kw))
+    if "init_exc" in res:
+        fail(None, what="a reader cannot be opened on a file with a valid header and the layout's own column names",
+             kind="reader-init", got=res["init_exc"])
+        return e
+    items = res["items"]
+    if not res["iter_exc"] and len(items) < len(seen):
+        fail(len(items), what="the reader reaches the end of the file with fewer records than data lines: a data line yields neither a record "
+             "nor an error (%d data lines, %d records)" % (len(seen), len(items)), kind="missing-record")
+    for j, line in enumerate(seen):
+        lineno = n_head + j + 1
+        if j < len(items):
+            i = dict(items[j])
+        elif j == len(items) and res["iter_exc"]:
+            i = {"exc": res["iter_exc"]}
+        else:
+            break
+        fails = []
+        e["outcomes"].append(check_line(fails, ann, line, mode, lineno, i, specs[line], names, history))
+        for f in fails:
+            f["line_checked"] = f.pop("line")          # the stored input of a file case is the file, not the line
+            e["failures"].append(dict(f, entry="reader", file=dict(case), data_index=j))
+        if "exc" in i:
+            break
+    if len(items) > len(seen):
+        fail(len(seen), what="the reader hands out more records than the file has data lines (%d data lines, %d records)"
+             % (len(seen), len(items)), kind="extra-record")
+    return e
+
+
+def file_specs(ctx, cases):
+    """spec.line answers for every data line the cases' routes see: {(scheme, line): answer}."""
+    uniq = {}
+    for c in cases:
+        n_head = len(c["header"]) + 1
+        for l in impl.route_lines(c["route"], list(c["header"]) + [c["columns"]] + list(c["lines"]), c.get("final", True))[n_head:]:
+            uniq.setdefault((c["scheme"], l), {"op": "spec.line", "scheme": c["scheme"], "line": l,
+                                              "floats": float_table(l.split("\t"))})
+    keys = list(uniq)
+    return dict(zip(keys, ctx.driver.run([uniq[k] for k in keys])))
+
+
+def file_model_req(case):
+    lines = list(case["header"]) + [case["columns"]] + list(case["lines"])
+    r = {"op": "reader.run", "lines": lines, "mode": case["mode"],
+         "floats": float_table([p for l in lines for p in l.rstrip("\r\n").split("\t")])}
+    if case.get("given"):
+        r["given"] = case["scheme"]
+    return r
+
+
+def file_cases(ctx, out, per_scheme, n_lines):
+    """Whole files: the same generated content through every public way of opening a reader
+    (MafReader(lines=...) over a list with and without terminators, a generator, a text handle;
+    MafReader.reader_from(path) plain and .gz, LF and CRLF), header's scheme or an explicitly given one."""
+    import tempfile
+    rng = ctx.rng("files")
+    cases = []
+    for ann in impl.builtin_annotations():
+        header, col = file_preamble(ann)
+        for _ in range(per_scheme):
+            lines = file_data_lines(rng, ann, n_lines)
+            given = rng.random() < 0.3
+            base = {"scheme": ann, "header": header, "columns": col, "lines": lines, "given": given}
+            for mode in MODES:
+                cases.append(dict(base, route="list", mode=mode, final=True))
+            for route in impl.READER_ROUTES[1:]:
+                cases.append(dict(base, route=route, mode=rng.choice(MODES), final=rng.random() < 0.8))
+    specs = file_specs(ctx, cases)
+    mreqs = [file_model_req(c) for c in cases if c["route"] == "list"]
+    mo = iter(ctx.driver.run(mreqs))
+    history = []
+    with tempfile.TemporaryDirectory() as tmp:
+        for c in cases:
+            ann = c["scheme"]
+            e = eval_file(c, {l: specs[(ann, l)] for l in set(impl.route_lines(
+                c["route"], list(c["header"]) + [c["columns"]] + list(c["lines"]), c["final"])[len(c["header"]) + 1:])}, tmp, history)
+            if ann not in history:
+                history.append(ann)
+            out.evaluations += max(1, len(e["outcomes"]))
+            out.failures += e["failures"]
+            out.distribution["file-route:" + c["route"]] += 1
+            for k in e["outcomes"]:
+                out.distribution["file-line:" + k] += 1
+            out.nontrivial.add(("file", ann, c["route"], c["mode"], tuple(c["lines"])))
+            if c["route"] == "list":
+                r = file_model_req(c)
+                m = next(mo)
+                i = impl.run(r)
+                if has_unmodelled(m):
+                    out.unmodelled += 1
+                elif m != i:
+                    fields = [p for l in c["lines"] for f in l.split("\t") for p in [f] + f.split(";")]
+                    if any(colcases.dontcare_numeric(p) or colcases.dontcare_uuid(p) for p in fields):
+                        out.dontcare += 1
+                    else:
+                        keys = [k for k in sorted(set(m) | set(i)) if m.get(k) != i.get(k)]
+                        out.disagreements.append({"op": "reader.run", "mode": c["mode"], "differs": keys, "scheme": ann,
+                                                  "lines": c["lines"]})
+
+
 def run(ctx):
     out = Outcome()
     out.rule = ("type-directed field pools per distinct column class (by MRO) + whole lines (valid, 1-3 perturbed fields, wrong counts) "
-                "x 3 modes over all built-in layouts; a case is non-trivial when it lies in the must-accept or must-reject zone; "
+                "x 3 modes over all built-in layouts; whole files (valid header, the layout's column line, such lines plus blank-looking lines at any position) "
+                "read through every reader entry point (MafReader over a list with/without terminators, a generator, a text handle; reader_from(path) plain and .gz, LF and CRLF): "
+                "one record per data line, each under the per-line oracle with its physical line number; a case is non-trivial when it lies in the must-accept or must-reject zone; "
                 "distinct = distinct (scheme, column, text) or (scheme, line)")
     structure_cases(ctx, out)
     field_cases(ctx, out, per_sig_uses=ctx.scale(1, 4))
     line_cases(ctx, out, per_scheme=ctx.scale(12, 150))
+    file_cases(ctx, out, per_scheme=ctx.scale(1, 6), n_lines=ctx.scale(4, 6))
     return out
 
 
@@ -358,6 +548,42 @@ def replay_case(ctx, failure):
         print("  documented layout (model, spec.layouts): %s" % ("the same" if spec.get(ann) == names else _short(spec.get(ann))))
         print("  model's scheme table: %s" % ("differs from the implementation" if dis else "agrees with the implementation"))
         return fails
+    if "file" in f:
+        import tempfile
+        case = f["file"]
+        if not isinstance(case, dict) or any(k not in case for k in ("scheme", "header", "columns", "lines", "route", "mode", "given")):
+            return None
+        if impl.scheme_by_annotation(case["scheme"]) is None or case["route"] not in impl.READER_ROUTES:
+            return None
+        case = dict(case, final=case.get("final", True))
+        warm_up(f.get("after_schemes", []))
+        specs = {l: v for (_a, l), v in file_specs(ctx, [case]).items()}
+        with tempfile.TemporaryDirectory() as tmp:
+            e = eval_file(case, specs, tmp, f.get("after_schemes", []))
+        res = e["res"]
+        print("replay C01 file: %d header line(s), the column line of %s and %d data line(s) read in %s mode through reader route '%s'%s%s"
+              % (len(case["header"]), case["scheme"], len(e["data_lines"]), case["mode"], case["route"],
+                 " (scheme also given to the reader)" if case["given"] else "",
+                 "" if case["final"] else " (last line without terminator)"))
+        for j, l in enumerate(e["data_lines"]):
+            print("  data line %d (file line %d): %s" % (j, len(case["header"]) + 2 + j, _short(l, 160)))
+        if "init_exc" in res:
+            print("  implementation: opening the reader raised %s" % res["init_exc"])
+        else:
+            print("  implementation: %d record(s)%s; errors per record: %s" % (
+                len(res["items"]), ", then %s" % res["iter_exc"] if res["iter_exc"] else "",
+                _short([x["rec"]["errors"] for x in res["items"]], 300)))
+        if case["route"] == "list":
+            r = file_model_req(case)
+            m = ctx.driver.run([r])[0]
+            i = impl.run(r)
+            print("  model (reader.run): %s" % ("outside the model" if has_unmodelled(m) else "agrees with the implementation" if m == i else
+                                               "DIFFERS: %d record(s)%s" % (len(m.get("records", [])), ", then %s" % m.get("iter_exc") if m.get("iter_exc") else "")))
+        else:
+            print("  (model: reader.run has no path/handle routes; the list route of the same file is compared in the run)")
+        print("  oracle (one record per data line, each under the per-line oracle): outcomes %s, %d failure(s)%s"
+              % (e["outcomes"], len(e["failures"]), "".join("\n    - " + x["what"] for x in e["failures"])))
+        return e["failures"]
     if "line" in f:
         if any(k not in f for k in ("scheme", "mode", "lineno", "after_schemes")):
             return None
